@@ -20,6 +20,7 @@ EXPLANATION = (
     'witnesses), and lookup() acquires the element lock with write == is_write_access_needed(accessor); D5 success is reported '
     'only on the path that linked / unlinked the node.  Linearizability and absence of loss across lazy rehash for all hash '
     'functions are NOT decided.')
+EXPLANATION += ' Added after the seeded-change rounds: ' + 'D1 also: after a bucket-lock upgrade that released the lock, every pointer the chain mutation uses (node, predecessor) is recomputed on every path before the mutation.'
 ASSUMPTIONS = ['instantiations: concurrent_hash_map<int,int> and <string,string> (explicit instantiation)', 'rw scoped lock model']
 ND = ['linearizability of the map operations', 'no loss across lazy rehash for all hash functions / growth schedules']
 
